@@ -656,10 +656,37 @@ func (x *Exec) execSlice(f *Frame, i *ssa.Slice) {
 		at := u.Elem().Underlying().(*types.Array)
 		lv := x.addrOf(f, i.X)
 		arr := x.load(f, lv, i.Pos())
+		full := MkSlice(arr, IntLit(at.Len()))
 		if i.Low != nil || i.High != nil {
-			x.fail("partial slice of an array")
+			lo := IntLit(0)
+			if i.Low != nil {
+				lo = x.term(f, i.Low)
+			}
+			hi := IntLit(at.Len())
+			if i.High != nil {
+				hi = x.term(f, i.High)
+			}
+			g := And(mk(SBool, "(<= 0 %s)", lo), mk(SBool, "(<= %s %s)", lo, hi), mk(SBool, "(<= %s %d)", hi, at.Len()))
+			if !x.noSafety() {
+				x.obligeGround(f, "bounds", x.safetyTags(), x.cur.reach, g, "slice bounds out of range", i.Pos())
+			}
+			x.assume(x.cur.reach, g)
+			if isByteSlice(i.Type()) {
+				t := x.b.Fresh("arrbytes", SStr)
+				x.assume(x.cur.reach, mk(SBool, "(= (str_len %s) (- %s %s))", t, hi, lo))
+				x.setReg(f, i, t)
+				return
+			}
+			x.setReg(f, i, x.subSlice(x.b, full, lo, hi))
+			return
 		}
-		x.setReg(f, i, MkSlice(arr, IntLit(at.Len())))
+		if isByteSlice(i.Type()) {
+			t := x.b.Fresh("arrbytes", SStr)
+			x.assume(x.cur.reach, mk(SBool, "(= (str_len %s) %d)", t, at.Len()))
+			x.setReg(f, i, t)
+			return
+		}
+		x.setReg(f, i, full)
 	case *types.Slice:
 		sv := x.term(f, i.X)
 		if isByteSlice(i.X.Type()) {
